@@ -1529,10 +1529,8 @@ func timestampStateIsReference(c *Check, a *Anchors) {
 	inspectBody(ts.Body, func(nd ast.Node) bool {
 		if as, ok := nd.(*ast.AssignStmt); ok && len(as.Lhs) == 1 && len(as.Rhs) == 1 {
 			if call, ok := ast.Unparen(as.Rhs[0]).(*ast.CallExpr); ok {
-				if fn, ok := callee(info, call).(*types.Func); ok && fn.Pkg() != nil && fn.Pkg().Path() == PkgFingerprint {
-					if sig := fn.Type().(*types.Signature); sig.Recv() != nil && sig.Results().Len() == 1 && types.TypeString(sig.Results().At(0).Type(), nil) == "string" {
-						pathVar = varOf(info, as.Lhs[0])
-					}
+				if fn, ok := callee(info, call).(*types.Func); ok && statePathHelper(c, fn) {
+					pathVar = varOf(info, as.Lhs[0])
 				}
 			}
 		}
@@ -1802,13 +1800,11 @@ func namespaceAlwaysPrepended(c *Check, a *Anchors) {
 	}
 	minfo := merge.Info()
 	var helper *FuncBody
-	var mergeGroup []*ast.CallExpr
-	for _, g := range c.P.groupOf(merge, 1) {
-		if g == merge || g.Decl.Recv == nil {
-			mergeGroup = append(mergeGroup, callsIn(g, true)...)
-		}
+	var mergeCalls []*ast.CallExpr
+	for _, g := range mergeGroup(c, merge) {
+		mergeCalls = append(mergeCalls, callsIn(g, true)...)
 	}
-	for _, call := range mergeGroup {
+	for _, call := range mergeCalls {
 		fn, ok := callee(minfo, call).(*types.Func)
 		if !ok || fn.Pkg() == nil || fn.Pkg().Path() != PkgAst {
 			continue
@@ -1843,7 +1839,7 @@ func namespaceAlwaysPrepended(c *Check, a *Anchors) {
 	}
 	// which parameter is the namespace: the one bound to Include.Namespace at the call sites
 	nsIdx := -1
-	for _, call := range mergeGroup {
+	for _, call := range mergeCalls {
 		if a.is(callee(minfo, call), helper) {
 			for i, arg := range call.Args {
 				if fieldSel(minfo, arg, PkgAst, "Include", "Namespace") {
@@ -2326,10 +2322,7 @@ func aliasFromLocalName(c *Check, a *Anchors) {
 	}
 	n := 0
 	ord := map[string]int{}
-	for _, scope := range c.P.groupOf(merge, 1) {
-		if scope != merge && scope.Decl.Recv != nil {
-			continue
-		}
+	for _, scope := range mergeGroup(c, merge) {
 		n += aliasFromLocalNameIn(c, a, scope, ord)
 	}
 	c.Floor("alias-from-local-name", n, 4)
@@ -3233,7 +3226,7 @@ func stateKeyInjective(c *Check, a *Anchors) {
 	lossy := map[string]bool{"ReplaceAllString": true, "ReplaceAllLiteralString": true, "ReplaceAll": true, "Replace": true, "Map": true, "ToLower": true, "ToUpper": true, "TrimSpace": true, "Trim": true}
 	digest := map[string]bool{"HashString": true, "Hash": true, "Sum256": true, "Sum": true, "Sum64": true, "Sum128": true, "New": false}
 	for _, fb := range c.P.BodiesIn(PkgFingerprint) {
-		if fb.Decl == nil || fb.Decl.Recv == nil {
+		if fb.Decl == nil {
 			continue
 		}
 		info := fb.Info()
@@ -3242,11 +3235,20 @@ func stateKeyInjective(c *Check, a *Anchors) {
 				continue
 			}
 			call, ok := ast.Unparen(r.Results[0]).(*ast.CallExpr)
-			if !ok || !(isFunc(callee(info, call), "path/filepath", "", "Join") || isFunc(callee(info, call), PkgFilepathext, "", "SmartJoin")) || len(call.Args) < 2 {
+			if !ok || !(isFunc(callee(info, call), "path/filepath", "", "Join") || isFunc(callee(info, call), PkgFilepathext, "", "SmartJoin")) || len(call.Args) < 3 {
 				continue
 			}
-			// a state path: first component is the checker's temp dir
-			if sel, ok := ast.Unparen(call.Args[0]).(*ast.SelectorExpr); !ok || sel.Sel.Name != "tempDir" {
+			// a state path: <temp dir>/<kind>/<name> — the first component is the checker's temp dir (a field, or a parameter it
+			// is handed in), the second a constant
+			first := ast.Unparen(call.Args[0])
+			isTemp := false
+			if sel, ok := first.(*ast.SelectorExpr); ok && sel.Sel.Name == "tempDir" {
+				isTemp = true
+			}
+			if v := varOf(info, first); v != nil && isParamOf(info, fb, v) {
+				isTemp = true
+			}
+			if !isTemp || constText(info, call.Args[1]) == "" {
 				continue
 			}
 			n++
@@ -3531,10 +3533,8 @@ func stateAbsentMeansStale(c *Check, a *Anchors) {
 	inspectBody(ts.Body, func(nd ast.Node) bool {
 		if as, ok := nd.(*ast.AssignStmt); ok && len(as.Lhs) == 1 && len(as.Rhs) == 1 {
 			if call, ok := ast.Unparen(as.Rhs[0]).(*ast.CallExpr); ok {
-				if fn, ok := callee(info, call).(*types.Func); ok && fn.Pkg() != nil && fn.Pkg().Path() == PkgFingerprint {
-					if sig := fn.Type().(*types.Signature); sig.Recv() != nil && sig.Results().Len() == 1 && types.TypeString(sig.Results().At(0).Type(), nil) == "string" {
-						pathVar = varOf(info, as.Lhs[0])
-					}
+				if fn, ok := callee(info, call).(*types.Func); ok && statePathHelper(c, fn) {
+					pathVar = varOf(info, as.Lhs[0])
 				}
 			}
 		}
@@ -3562,4 +3562,28 @@ func stateAbsentMeansStale(c *Check, a *Anchors) {
 			"the timestamp checker can answer 'up to date' on a path where its state file does not exist (never ran, or the last run failed and removed it): output written by a failed attempt makes the next run skip the task; must-facts: "+st.String())
 	}
 	c.Floor("state-absent-means-stale", n, 1)
+}
+
+
+// statePathHelper: a function or method of internal/fingerprint that returns a state-file path — a single string result
+// built with filepath.Join / SmartJoin (directly or through one more helper of the package).
+func statePathHelper(c *Check, fn *types.Func) bool {
+	if fn == nil || fn.Pkg() == nil || fn.Pkg().Path() != PkgFingerprint {
+		return false
+	}
+	sig := fn.Type().(*types.Signature)
+	if sig.Results().Len() != 1 || types.TypeString(sig.Results().At(0).Type(), nil) != "string" {
+		return false
+	}
+	d := c.P.DeclOf(fn)
+	if d == nil {
+		return false
+	}
+	joins := false
+	for _, call := range callsIn(d, false) {
+		if isFunc(callee(d.Info(), call), "path/filepath", "", "Join") || isFunc(callee(d.Info(), call), PkgFilepathext, "", "SmartJoin") {
+			joins = true
+		}
+	}
+	return joins
 }
